@@ -246,6 +246,7 @@ struct World {
     std::vector<Frame> frames;
     // io
     std::vector<std::pair<int, int>> ufds;   // user pipes: (read fd, write fd); eventfd: (fd, -1)
+    std::vector<uint64_t> ufd_ids;           // kernel file id of ufds[k].first when it was opened (a number alone may have been reused)
     std::vector<bool> ufd_closed_by_lib_ok;  // registered with AUTOCLOSE at least once
     // messaging
     std::deque<SendRec> sends;
